@@ -33,7 +33,12 @@ L = {"quick": 5, "thorough": 6}
 ALPHA = []
 for _i in range(NCASES):
     ALPHA += [("full", _i), ("short", _i, True), ("short", _i, False), ("supra", _i)]
-ALPHA += [("idrel", 2), ("idrel", -5), ("idrel", 500), ("fill",)]
+ALPHA += [("idrel", 2), ("idrel", -5), ("idrel", 500), ("fill",), ("longfill",)]
+LONGFILL = (
+    "The panel then turned to the remaining arguments raised by the appellant, none of which had been presented to the trial "
+    "judge, and explained at some length why each of them lacked merit under the governing standard, noting that the record "
+    "contained ample support for the findings below and that nothing in the briefs suggested otherwise."
+)  # > 300 characters of neutral prose: no stop word, citation, id., supra, section mark or line break
 
 
 def bounds(tier):
@@ -96,6 +101,8 @@ def render(events, cases):
             parts.append(f"{d}, supra, at {int(pg) + 3}.")
         elif k == "id":
             parts.append(f"Id. at {ev[1]}.")
+        elif k == "longfill":
+            parts.append(LONGFILL)
         else:
             parts.append("The court agreed with this.")
     return " ".join(parts)
